@@ -453,6 +453,7 @@ Theorem C14_alias_hook_constants_match_source :
   /\ Gen_Hooks.gen_change_vartype_wrapper_hook_inplace = Alias.model_change_vartype_wrapper_hook_inplace
   /\ Gen_Hooks.gen_resolve_shares_record = Alias.model_resolve_shares_record
   /\ Gen_Hooks.gen_copy_copies_record = Alias.model_copy_copies_record
+  /\ Gen_Hooks.gen_relabel_pending_copies_mapping = Alias.model_relabel_pending_copies_mapping
   /\ Gen_Hooks.gen_relabel_inplace_default = true /\ Gen_Hooks.gen_change_vartype_inplace_default = true.
 Proof. exact AliasGenFacts.hook_constants_match_source. Qed.
 Print Assumptions C14_alias_hook_constants_match_source.
